@@ -19,8 +19,8 @@ CXX = os.environ.get("VERIF_CXX", "g++")
 VARIANTS = {
     "exit.plain": ["-O1"],
     "exc.plain": ["-O1", "-DMASA_EXCEPTIONS=1"],
-    "exit.asan": ["-O1", "-g", "-fsanitize=address,undefined", "-fno-sanitize-recover=all", "-fno-omit-frame-pointer"],
-    "exc.asan": ["-O1", "-g", "-fsanitize=address,undefined", "-fno-sanitize-recover=all", "-fno-omit-frame-pointer", "-DMASA_EXCEPTIONS=1"],
+    "exit.asan": ["-O1", "-g", "-fsanitize=address,undefined", "-fno-sanitize-recover=all", "-fno-omit-frame-pointer", "-D_GLIBCXX_SANITIZE_VECTOR=1"],
+    "exc.asan": ["-O1", "-g", "-fsanitize=address,undefined", "-fno-sanitize-recover=all", "-fno-omit-frame-pointer", "-D_GLIBCXX_SANITIZE_VECTOR=1", "-DMASA_EXCEPTIONS=1"],
 }
 COMMON = ["-std=c++17", "-w", "-fno-builtin-malloc"]
 
@@ -69,11 +69,27 @@ def build(variant):
     if os.path.exists(exe):
         os.utime(out, None)
         return exe
-    # drop stale builds of this variant (disk is limited)
+    # drop stale builds of this variant (disk is limited): keep the most recently used few, never touch a build
+    # directory that another process may still be filling
     if os.path.isdir(BUILD):
+        now = time.time()
+        mine = []
         for d in os.listdir(BUILD):
-            if d.startswith(variant + "-") and d != os.path.basename(out):
-                shutil.rmtree(os.path.join(BUILD, d), ignore_errors=True)
+            if not d.startswith(variant + "-") or d == os.path.basename(out):
+                continue
+            full = os.path.join(BUILD, d)
+            try:
+                age = now - os.path.getmtime(full)
+            except OSError:
+                continue
+            if ".tmp" in d:
+                if age > 3600:
+                    shutil.rmtree(full, ignore_errors=True)
+            else:
+                mine.append((age, full))
+        mine.sort()
+        for age, full in mine[int(os.environ.get("VERIF_KEEP_BUILDS", "6")):]:
+            shutil.rmtree(full, ignore_errors=True)
     tmp = out + ".tmp%d" % os.getpid()
     shutil.rmtree(tmp, ignore_errors=True)
     os.makedirs(tmp)
